@@ -108,10 +108,10 @@ PROPS["C02"] = dict(
 
 PROPS["C07"] = dict(
     pkg="./props/c07_timeout",
-    tests=[REGRESS(), T("TestTimeoutTriple", (4, 60), (8, 1500)), T("TestTimeoutThenCallerCancel", (4, 25), (8, 400)), T("TestTimeoutWhenAlreadyCancelled", (2, 60), (4, 1500))],
+    tests=[REGRESS(), T("TestTimeoutTriple", (4, 60), (8, 1500)), T("TestTimeoutThenCallerCancel", (4, 25), (8, 400)), T("TestTimeoutWhenAlreadyCancelled", (2, 60), (4, 1500)), T("TestOuterTimeoutStaysSilent", (2, 200), (4, 4000)), T("TestHedgedRetryTimeout", (2, 100), (4, 2000))],
     replay_reps=2000,
     require_classes=["arm=inner", "arm=timeout"],
-    rule="TestTimeoutWhenAlreadyCancelled: the caller cancels before the limit (or before the start) and the function ignores it, returning at half or at twice the limit: the same exclusive outcome is required. TestTimeoutThenCallerCancel: Retry(Timeout(fn)), 1..2 attempts ended by the Timeout, then an attempt during which the caller cancels at once: if that attempt was over before its limit could elapse, the listener count is unchanged and the execution does not end in ErrExceeded. TestTimeoutTriple (one trial in three builds its Timeout as the middle one of three from a shared builder with different listeners): rapid-generated trials run in concurrent batches of 96: time limit 1..20 ms, function duration in {0, limit/2, a dense band 0.8..1.2 x limit, 2 x limit, block until cancelled} realised by sleeping or spinning, sync or async, in 8 placements (alone, retry(timeout), timeout(retry), fallback(timeout), timeout(fallback), timeout(hedge), timeout(bulkhead) and timeout(limiter) with and without a pending wait); the oracle accepts either side of the race but requires the triple (result, listener count, cancellation) to be consistent and ErrExceeded never to precede the limit; non-trivial = duration in the racing band or blocking, or at least 2 attempts; distinct = hash of (placement, duration kind, limit bucket, factor, spin, error, failures, waiting, arm taken)",
+    rule="TestOuterTimeoutStaysSilent: an outer Timeout of one hour around an inner Timeout that fires, or around a function returning (an error wrapping) ErrExceeded: the outer listener stays silent and the result passes through. TestHedgedRetryTimeout: Hedge(Retry(Timeout(fn))), first tries of both branches ended by the Timeout, the hedged branch's second try succeeds: it must have been made. TestTimeoutWhenAlreadyCancelled: the caller cancels before the limit (or before the start) and the function ignores it, returning at half or at twice the limit: the same exclusive outcome is required. TestTimeoutThenCallerCancel: Retry(Timeout(fn)), 1..2 attempts ended by the Timeout, then an attempt during which the caller cancels at once: if that attempt was over before its limit could elapse, the listener count is unchanged and the execution does not end in ErrExceeded. TestTimeoutTriple (one trial in three builds its Timeout as the middle one of three from a shared builder with different listeners): rapid-generated trials run in concurrent batches of 96: time limit 1..20 ms, function duration in {0, limit/2, a dense band 0.8..1.2 x limit, 2 x limit, block until cancelled} realised by sleeping or spinning, sync or async, in 8 placements (alone, retry(timeout), timeout(retry), fallback(timeout), timeout(fallback), timeout(hedge), timeout(bulkhead) and timeout(limiter) with and without a pending wait); the oracle accepts either side of the race but requires the triple (result, listener count, cancellation) to be consistent and ErrExceeded never to precede the limit; non-trivial = duration in the racing band or blocking, or at least 2 attempts; distinct = hash of (placement, duration kind, limit bucket, factor, spin, error, failures, waiting, arm taken)",
     assumptions=["timing assertions are lower bounds on monotonic time only (sandbox stalls of 50-130 ms were measured); 'listener never called' is checked after a grace period of 2 x limit + 30 ms, 'listener called / execution cancelled' is polled for up to 30 s",
                  "the schedule is sampled by the Go scheduler and real timers, not enumerated"],
 )
